@@ -62,6 +62,8 @@ impl GenericSocketBackend {
                     }
                 },
             };
+            #[cfg(feature = "verif-hooks")]
+            crate::verif_hooks::yield_point("backend.send_round_robin.after_pop").await;
             let send_result = match self.peers.get_async(&next_peer_id).await {
                 Some(mut peer) => peer.send_queue.send(message).await,
                 None => continue,
@@ -105,7 +107,11 @@ impl MultiPeerBackend for GenericSocketBackend {
         self.peers
             .upsert_async(peer_id.clone(), Peer { send_queue })
             .await;
+        #[cfg(feature = "verif-hooks")]
+        crate::verif_hooks::yield_point("backend.peer_connected.after_upsert").await;
         self.round_robin.push(peer_id.clone());
+        #[cfg(feature = "verif-hooks")]
+        crate::verif_hooks::yield_point("backend.peer_connected.after_rr_push").await;
         match &self.fair_queue_inner {
             None => {}
             Some(inner) => {
